@@ -447,11 +447,21 @@ def handle (sd : Side) (op : List String) (impl : List String) : Handled :=
 
 /-- Parse the observation of a crash / power-loss image:
 `ok <next> <n> msgs… views=… again=… append=…`. -/
+def isFlagTok (t : String) : Bool :=
+  t.startsWith "views=" || t.startsWith "again=" || t.startsWith "append=" || t.startsWith "retry="
+
+/-- The interrupted Open retried on the image: it may fail to open (a torn image without
+Recover), otherwise the directory passes Check and its logs hold the same content. -/
+def retryOK (impl : List String) : Bool :=
+  match impl.find? (·.startsWith "retry=") with
+  | none => true
+  | some t => let v := (t.drop 6).toString; v == "-" || v == "same" || v.startsWith "open-"
+
 def parseImage (impl : List String) : Option (Int × List Msg × String × String × String) :=
   match impl with
   | "ok" :: nx :: rest =>
-    let flags := rest.filter (fun t => t.startsWith "views=" ∨ t.startsWith "again=" ∨ t.startsWith "append=")
-    let msgsToks := rest.filter (fun t => !(t.startsWith "views=" ∨ t.startsWith "again=" ∨ t.startsWith "append="))
+    let flags := rest.filter isFlagTok
+    let msgsToks := rest.filter (fun t => !isFlagTok t)
     match nx.toInt?, parseMsgs msgsToks with
     | some n, some ms =>
       let get := fun (k : String) => ((flags.find? (·.startsWith k)).map (fun t => (t.drop k.length).toString)).getD "?"
@@ -478,7 +488,8 @@ def judgeCrash (pre post : Spec) (op : List String) (impl : List String) : List 
     (if L.all (fun m => decide (m.off < n)) then [] else ["CrashNextBelowLive"]) ++
     (if views = "ok" then [] else ["CrashViews"]) ++
     (if again = "same" then [] else ["CrashRecoverAgain"]) ++
-    (if app = "ok" then [] else ["CrashAppend"])
+    (if app = "ok" then [] else ["CrashAppend"]) ++
+    (if retryOK impl then [] else ["CrashRetry"])
 
 /-- C06: after losing unsynced data, everything below the acknowledged offset survives, the
 survivors are a prefix of what was acknowledged, NextOffset is at least that offset. -/
